@@ -173,6 +173,21 @@ pub struct Config {
 }
 
 impl Config {
+    /// configuration after a `Reinit` op
+    pub fn after_reinit(&self, op: &Op) -> Config {
+        let mut c = self.clone();
+        if let Op::Reinit { w, h, ox, oy, orient, bgr, invert, refresh } = op {
+            c.w = *w;
+            c.h = *h;
+            c.ox = *ox;
+            c.oy = *oy;
+            c.orient = *orient;
+            c.bgr = *bgr;
+            c.invert = *invert;
+            c.refresh = *refresh;
+        }
+        c
+    }
     pub fn logical_size(&self) -> (u32, u32) {
         if self.orient.rot % 2 == 0 {
             (self.w as u32, self.h as u32)
@@ -242,6 +257,10 @@ pub enum Op {
     /// 0 off, 1 vertical, 2 horizontal and vertical
     Tearing { te: u8 },
     TestImage,
+    /// "restart": release the display down to interface (for the generic parallel buses: down
+    /// to the pins, and a new bus is built from them) and initialise again with new options.
+    /// Frame memory survives, everything the driver believed does not.
+    Reinit { w: u16, h: u16, ox: u16, oy: u16, orient: Orient, bgr: bool, invert: bool, refresh: u8 },
 }
 
 impl Op {
@@ -260,6 +279,7 @@ impl Op {
             Op::ScrollOffset { .. } => "set_vertical_scroll_offset",
             Op::Tearing { .. } => "set_tearing_effect",
             Op::TestImage => "test_image",
+            Op::Reinit { .. } => "reinit",
         }
     }
     pub fn is_drawing(&self) -> bool {
